@@ -101,12 +101,12 @@ def execute_xy(scenario):
         try:
             env, X0, Y0, rate0 = xy.make_env(scenario)
         except Exception as e:
-            return {"violations": [], "digest": core.digest(["build", type(e).__name__]), "probes": {"build_refused": 1}, "faults": {},
+            return {"violations": [], "digest": core.digest(["build", core.exc_name(e)]), "probes": {"build_refused": 1}, "faults": {},
                     "stats": {"ops": 1}, "trace": "xy-refused", "nontrivial": False}
         try:
             recs = xy.run_episode(env, scenario["actions"], fold=None, np_seed=scenario.get("np_seed", 0))
         except Exception as e:
-            return {"violations": [], "digest": core.digest(["reset", type(e).__name__]), "probes": {"reset_refused": 1}, "faults": {},
+            return {"violations": [], "digest": core.digest(["reset", core.exc_name(e)]), "probes": {"reset_refused": 1}, "faults": {},
                     "stats": {"ops": 1}, "trace": "xy-reset-refused", "nontrivial": False}
     # the scale, from the given table only
     end = kw.get("transformer_end") or (kw.get("end") or tb["dates"][-1])
@@ -415,7 +415,7 @@ def execute(scenario):
                 nlv_df = tr.net_liquidation_value()
                 costs = tr.transaction_costs()
             except Exception as e:
-                violate("unexpected_exception", "TrackRecord aggregation raised {!r}".format(e), exc=type(e).__name__, where="track_record")
+                violate("unexpected_exception", "TrackRecord aggregation raised {!r}".format(e), exc=core.exc_name(e), where="track_record")
                 break
             col = [float(x) for x in nlv_df.iloc[:, 0].tolist()]
             want_col = [reb["pre"]["nlv"] for _, reb in entries]
@@ -425,7 +425,7 @@ def execute(scenario):
             try:
                 wt = tr.weights_target()
             except Exception as e:
-                violate("unexpected_exception", "TrackRecord.weights_target() raised {!r}".format(e), exc=type(e).__name__, where="track_record")
+                violate("unexpected_exception", "TrackRecord.weights_target() raised {!r}".format(e), exc=core.exc_name(e), where="track_record")
                 break
             if len(wt) != len(entries):
                 violate("aggregations", "TrackRecord.weights_target() has {} rows for {} entries".format(len(wt), len(entries)), kind="weights_target_rows")
